@@ -213,9 +213,81 @@ func ctConst(rel, name, lean string) func() string {
 	})
 }
 
+// the JSON messages of RFC 6962 section 4 (and the repository's JSON form of a signed tree head)
+var ctJSONStructs = []string{"AddChainRequest", "AddChainResponse", "GetSTHResponse", "GetSTHConsistencyResponse",
+	"GetProofByHashResponse", "LeafEntry", "GetEntriesResponse", "GetRootsResponse", "GetEntryAndProofResponse", "SignedTreeHead"}
+
+// ctJSONUnit: Go field name, Go type expression and `json:"…"` name of every field of the API message structs.
+func ctJSONUnit() string {
+	decls := ctLoad()
+	var rows []string
+	for _, n := range ctJSONStructs {
+		d, ok := decls["ct."+n]
+		if !ok {
+			panic(bail{"type ct." + n + " not found in types.go"})
+		}
+		st, ok := d.expr.(*ast.StructType)
+		if !ok {
+			panic(bail{"ct." + n + " is not a struct"})
+		}
+		var fs []string
+		for _, f := range st.Fields.List {
+			if len(f.Names) == 0 {
+				failf(f, "embedded field in %s", n)
+			}
+			name := ""
+			if f.Tag != nil {
+				raw, err := strconv.Unquote(f.Tag.Value)
+				if err != nil {
+					failf(f, "cannot unquote struct tag %s", f.Tag.Value)
+				}
+				name = strings.Split(reflect.StructTag(raw).Get("json"), ",")[0]
+			}
+			for _, fn := range f.Names {
+				jn := name
+				if jn == "" {
+					jn = fn.Name // encoding/json falls back to the Go field name
+				}
+				fs = append(fs, fmt.Sprintf("(%s, %s, %s)", strconv.Quote(fn.Name), strconv.Quote(src(f.Type)), strconv.Quote(jn)))
+			}
+		}
+		rows = append(rows, fmt.Sprintf("(%s, [%s])", strconv.Quote(n), strings.Join(fs, ", ")))
+	}
+	return "/-- generated from types.go: the API message structs — (Go field, Go type, JSON name) in declaration order -/\ndef apiJson : List (String × List (String × String × String)) :=\n  [" + strings.Join(rows, ",\n   ") + "]\n"
+}
+
+// condKernelSrc: the source text of the condition of the unique `if` of fn whose then-branch contains marker.
+func condKernelSrc(rel, fn, marker, leanName string) func() string {
+	return func() string {
+		fd := mustFunc(rel, fn)
+		ss := findStmts(fd, func(s ast.Stmt) bool {
+			i, ok := s.(*ast.IfStmt)
+			return ok && strings.Contains(src(i.Body), marker)
+		})
+		if len(ss) != 1 {
+			panic(bail{fmt.Sprintf("%s: expected exactly one `if` whose body mentions %q in %s, found %d", rel, marker, fn, len(ss))})
+		}
+		return fmt.Sprintf("/-- generated from %s func %s: the condition under which `%s…` is chosen -/\ndef %s : String := %s\n", rel, fn, marker, leanName, leanStr(src(ss[0].(*ast.IfStmt).Cond)))
+	}
+}
+
 func init() {
 	register(genFile{name: "CtTypes", imports: []string{"CTV.Tls.Tag"}, units: []unit{
 		{"ct wire types", ctTypesUnit},
+		{"ct api json", ctJSONUnit},
+		// how the serialization.go wrappers are wired: which struct literal is marshalled, what is prepended, what is parsed
+		{"SerializeSCTSignatureInput.input", assignsTo("serialization.go", "SerializeSCTSignatureInput", "input", "sctInputAssign")},
+		{"SerializeSCTSignatureInput.x509", assignsTo("serialization.go", "SerializeSCTSignatureInput", "input.X509Entry", "sctInputX509Assign")},
+		{"SerializeSCTSignatureInput.precert", assignsTo("serialization.go", "SerializeSCTSignatureInput", "input.PrecertEntry", "sctInputPrecertAssign")},
+		{"SerializeSCTSignatureInput.marshal", callsOf("serialization.go", "SerializeSCTSignatureInput", "tls.Marshal", "sctInputMarshal")},
+		{"SerializeSTHSignatureInput.input", assignsTo("serialization.go", "SerializeSTHSignatureInput", "input", "sthInputAssign")},
+		{"SerializeSTHSignatureInput.marshal", callsOf("serialization.go", "SerializeSTHSignatureInput", "tls.Marshal", "sthInputMarshal")},
+		{"LeafHashForLeaf.marshal", callsOf("serialization.go", "LeafHashForLeaf", "tls.Marshal", "leafHashMarshal")},
+		{"LeafHashForLeaf.data", assignsTo("serialization.go", "LeafHashForLeaf", "data", "leafHashData")},
+		{"LeafHashForLeaf.hash", callsOf("serialization.go", "LeafHashForLeaf", "sha256.Sum256", "leafHashSum")},
+		{"RawLogEntryFromLeaf.unmarshal", callsOf("serialization.go", "RawLogEntryFromLeaf", "tls.Unmarshal", "rawLogEntryUnmarshal")},
+		{"ExtraDataForChain.extra", assignsTo("trillian/util/log_leaf.go", "ExtraDataForChain", "extra", "extraDataAssign")},
+		{"buildLogLeaf.choice", condKernelSrc("trillian/util/log_leaf.go", "buildLogLeaf", "ExtraDataForChain(", "buildLogLeafChoice")},
 		{"TreeLeafPrefix", ctConst("types.go", "TreeLeafPrefix", "treeLeafPrefix")},
 		{"TreeNodePrefix", ctConst("types.go", "TreeNodePrefix", "treeNodePrefix")},
 		{"X509LogEntryType", ctConst("types.go", "X509LogEntryType", "x509LogEntryType")},
